@@ -97,6 +97,8 @@ fn placement(sc: &Scenario, h: &crate::exec::History, b: &crate::exec::BuiltObs,
         match op {
             Op::Ttl(t) => ttl = Some(*t),
             Op::Start(t) => start = Some(*t),
+            Op::RemoveTtl => ttl = None,
+            Op::RemoveStart => start = None,
             Op::Donation(d) => donation = Some(*d),
             Op::Treasury(t) => treasury = Some(*t),
             Op::CollUtxo(u) => coll.push(sc.world.outpoint(*u)),
